@@ -164,6 +164,7 @@ class Ctx:
         self.axioms = []
         self.obligations = []
         self.card_fns = {}
+        self.local_sink = None
         self.def_ids = set()  # ids of definitional axioms (fresh constant := comprehension)
         self.strfacts = []
         self.exist_consts = []  # constants of a contract that are existentially quantified in refinement goals
@@ -258,8 +259,16 @@ class Ctx:
         body = z3.And(c >= 0,
                       (c == 0) == z3.Not(z3.Exists([x], mem(x))),
                       (c <= 1) == z3.And(z3.ForAll([x, y], z3.Implies(z3.And(mem(x), mem(y)), x == y)), z3.ForAll([x], cnt(x) <= 1)))
-        self.axioms.append(z3.ForAll(scope, body) if scope else body)
+        self._emit(z3.ForAll(scope, body) if scope else body, bool(scope))
         return c
+
+    def _emit(self, ax, scoped):
+        """cardinality axioms mention symbols of one path only: they go to that path's condition (keeps every VC small);
+        axioms quantified over enclosing loop variables must be global (they are used outside the binder's path)"""
+        if self.local_sink is not None and not scoped:
+            self.local_sink.append(ax)
+        else:
+            self.axioms.append(ax)
 
     def card_of(self, mem, tag="card"):
         scope = list(self.scope_vars)
@@ -273,14 +282,14 @@ class Ctx:
         body = z3.And(c >= 0,
                       (c == 0) == z3.Not(z3.Exists([x], mem(x))),
                       (c <= 1) == z3.ForAll([x, y], z3.Implies(z3.And(mem(x), mem(y)), x == y)))
-        self.axioms.append(z3.ForAll(scope, body) if scope else body)
+        self._emit(z3.ForAll(scope, body) if scope else body, bool(scope))
         return c
 
     # -- obligations
     def oblige(self, oid, hyps, goal, kind="assert", line=None):
         base, k = oid, 1
         seen = {o["id"] for o in self.obligations}
-        while oid in seen:  # ids are unique: the k-th obligation of the same name gets a path ordinal
+        while oid in seen:  # ids are unique
             k += 1
             oid = f"{base}~{k}"
         self.obligations.append({"id": oid, "kind": kind, "hyps": list(hyps), "goal": goal, "line": line})
@@ -360,11 +369,17 @@ class CircuitRec:
 
 
 class State:
-    def __init__(self, env, heap, pc):
-        self.env, self.heap, self.pc = env, heap, pc
+    def __init__(self, env, heap, pc, trace=()):
+        self.env, self.heap, self.pc, self.trace = env, heap, pc, trace
 
-    def fork(self, *conds):
-        return State(dict(self.env), dict(self.heap), self.pc + [c for c in conds if c is not None])
+    def fork(self, *conds, mark=None):
+        return State(dict(self.env), dict(self.heap), self.pc + [c for c in conds if c is not None],
+                     self.trace + ((mark,) if mark is not None else ()))
+
+    def pathid(self):
+        """stable identifier of the control path that led here (source lines and branch directions), so that
+        obligation names do not depend on how many infeasible paths the pruning happened to remove"""
+        return hashlib.md5(repr(self.trace).encode()).hexdigest()[:6]
 
     def g(self, ref):  # graph record of a Circuit or DiGraph reference
         rec = self.heap[ref.oid]
